@@ -8,143 +8,207 @@ section `startxref` points at, then its `/Prev`, …).  `newest chain n` is ISO 
 entry for `n` in the first section that mentions `n`.  `(merge chain).lookup n` is what the
 reader dispatches on (`parse_with_incremental_updates_options` + the order of the two look-ups in
 `load_object_from_disk`).  All statements hold for every chain (any length, any mix of classic and
-stream sections, any numbers) — there is no bound.
+stream sections, any numbers, objects inside object streams or not) — there is no bound.
 
-/- FULL (the property as stated; FALSE of the current code, see `C04_witness_*`):
-
-   theorem C04_newest_wins (chain : List Sect) (n : Nat) :
-       (merge chain).lookup n = newest chain n
-
-   theorem C04_load_agrees_with_spec (chain : List Sect) (ph : List Phys) (fuel n g : Nat) :
-       Agree (load (merge chain) ph fuel n g) (specResolve chain ph fuel n g)
--/
+The only hypothesis left is about the FILE, not about where objects live: a section lists a
+number at most once (`ListedOnce`, ISO 32000-1 §7.5.4).  `mergeOld` is the merge before /repo's
+`fix:` commit for C04-F1; the `…_old` witnesses state the regression the check must catch.
 -/
 namespace OxiVerif.C04
 
-/-- Exact behaviour of the code, for every chain: a compressed entry for `n` in ANY section (the
-    newest such) wins over everything; only without one does the newest mention decide. -/
-theorem C04_lookup_exact (chain : List Sect) (n : Nat) :
-    (merge chain).lookup n =
-      match firstComp chain n with
+/-- what one section's own table dispatches on (`parse_primary_with_options` + the look-up order):
+    its last compressed entry for `n` if it has one, else its last entry for `n` -/
+theorem secTable_lookup (s : Sect) (n : Nat) :
+    (secTable s).lookup n =
+      match lastComp s n with
       | some (a, b) => some (.comp a b)
-      | none => newest chain n := by
+      | none => lastOf s n := by
   unfold Table.lookup
-  rw [merge_ext, merge_entries]
-  cases hc : firstComp chain n with
+  rw [secTable_ext, secTable_entries]
+  cases hc : lastComp s n with
   | some c => rfl
   | none =>
-    simp only
-    -- without a compressed entry anywhere, the newest mention is not compressed
-    have hnc : ∀ a b, newest chain n ≠ some (.comp a b) := by
-      intro a b
-      induction chain with
-      | nil => simp [newest]
-      | cons s r ih =>
-        simp only [firstComp] at hc
-        simp only [newest]
-        cases hl : lastOf s n with
-        | some e =>
-          cases e with
-          | comp x y => rw [lastComp_of_lastOf_comp s n x y hl] at hc; simp at hc
-          | free x y => simp
-          | inuse x y => simp
-        | none =>
-          rw [lastComp_none_of_lastOf_none s n hl] at hc
-          exact ih hc
-    cases hn : newest chain n with
+    cases hl : lastOf s n with
     | none => rfl
     | some e =>
       cases e with
       | free x y => simp [toBasic]
       | inuse x y => simp [toBasic]
-      | comp x y => exact absurd hn (hnc x y)
+      | comp x y => rw [lastComp_of_lastOf_comp s n x y hl] at hc; simp at hc
 
-example : (merge [[(5, .inuse 9 0)], [(5, .comp 7 0), (7, .inuse 1 0)]]).lookup 5 = some (.comp 7 0) := by
+/-- Exact behaviour of the code, for EVERY chain (valid or not): the merged table dispatches on
+    object `n` exactly like the table of the newest section that mentions `n` — no older section
+    has any influence, whatever kind of entry it holds. -/
+theorem C04_lookup_exact (chain : List Sect) (n : Nat) :
+    (merge chain).lookup n =
+      match newestSect chain n with
+      | some s => (secTable s).lookup n
+      | none => none := by
+  have key : ∀ chain : List Sect, (merge chain).lookup n =
+      match extOf chain n with
+      | some (a, b) => some (.comp a b)
+      | none => newest chain n := by
+    intro chain
+    unfold Table.lookup
+    rw [merge_ext, merge_entries]
+    cases hc : extOf chain n with
+    | some c => rfl
+    | none =>
+      simp only
+      cases hn : newest chain n with
+      | none => rfl
+      | some e =>
+        cases e with
+        | free x y => simp [toBasic]
+        | inuse x y => simp [toBasic]
+        | comp x y =>
+          -- the newest mention is compressed: then `extOf` is not `none`
+          exfalso
+          induction chain with
+          | nil => simp [newest] at hn
+          | cons s r ih =>
+            simp only [extOf] at hc
+            simp only [newest] at hn
+            cases hl : lastOf s n with
+            | some e =>
+              rw [hl] at hn hc
+              simp only [Option.some.injEq] at hn
+              subst hn
+              rw [lastComp_of_lastOf_comp s n x y hl] at hc
+              simp at hc
+            | none =>
+              rw [hl] at hn hc
+              exact ih hc hn
+  rw [key]
+  induction chain with
+  | nil => rfl
+  | cons s r ih =>
+    simp only [extOf, newest, newestSect]
+    cases hl : lastOf s n with
+    | none => simpa using ih
+    | some e =>
+      simp only [secTable_lookup]
+      cases hc : lastComp s n with
+      | some c => rfl
+      | none => simp [hl]
+
+example : (merge [[(5, .inuse 9 0)], [(5, .comp 7 0), (7, .inuse 1 0)]]).lookup 5 = some (.inuse 9 0) := by
   decide
 
-/-- **Newest wins (partial).**  For every chain and number without a kind flip (no section at or
-    below the newest plain mention of `n` holds a compressed entry for `n`), the reader dispatches
-    on exactly the entry §7.5.6 prescribes.  What is missing w.r.t. FULL: chains where an older
-    section stored `n` in an object stream and a newer one redefines or frees it as a plain entry. -/
-theorem C04_newest_wins_partial (chain : List Sect) (n : Nat) (h : NoKindFlip chain n) :
+/-- **Newest wins.**  For every chain of sections and every number listed at most once per
+    section, the reader dispatches on exactly the entry §7.5.6 prescribes — whether the older or
+    the newer definition lives in an object stream, whether the newer revision redefines or
+    frees. -/
+theorem C04_newest_wins (chain : List Sect) (n : Nat) (hd : ∀ s ∈ chain, ListedOnce s n) :
     (merge chain).lookup n = newest chain n := by
-  rw [C04_lookup_exact]; exact firstComp_of_noKindFlip chain n h
+  unfold Table.lookup
+  rw [merge_ext, merge_entries, extOf_of_listedOnce chain n hd]
+  cases hn : newest chain n with
+  | none => rfl
+  | some e => cases e <;> simp [toBasic]
 
--- non-vacuity: three revisions, object 5 redefined twice (plain), object 6 moved INTO an object
--- stream by the newest revision, object 4 freed
-example : NoKindFlip [[(6, .comp 9 0), (9, .inuse 40 0), (4, .free 0 1)], [(5, .inuse 30 0)],
-    [(4, .inuse 10 0), (5, .inuse 20 0), (6, .inuse 25 0)]] 6 := by decide
-example : (merge [[(6, .comp 9 0), (9, .inuse 40 0), (4, .free 0 1)], [(5, .inuse 30 0)],
-    [(4, .inuse 10 0), (5, .inuse 20 0), (6, .inuse 25 0)]]).lookup 4 = some (.free 0 1) := by decide
+-- non-vacuity: three revisions; object 5 stored in object stream 9 by the base, redefined plain
+-- by revision 1; object 6 moved INTO an object stream by the newest revision; object 4 compressed
+-- in the base and freed by the newest revision
+example :
+    let chain : List Sect :=
+      [[(6, .comp 12 0), (12, .inuse 40 0), (4, .free 0 1)], [(5, .inuse 30 0)],
+       [(4, .comp 9 0), (5, .comp 9 1), (6, .inuse 25 0), (9, .inuse 1 0)]]
+    (∀ s ∈ chain, ∀ m, ListedOnce s m) ∧
+    (merge chain).lookup 4 = some (.free 0 1) ∧ (merge chain).lookup 5 = some (.inuse 30 0) ∧
+    (merge chain).lookup 6 = some (.comp 12 0) := by
+  refine ⟨?_, by decide, by decide, by decide⟩
+  intro s hs m
+  exact listedOnce_of_nodup s (by
+    simp only [List.mem_cons, List.not_mem_nil, or_false] at hs
+    rcases hs with rfl | rfl | rfl <;> decide) m
 
-/-- The FULL statement is false of the code: base stores object 5 in object stream 7, an appended
-    revision redefines 5 as a plain object — the reader still dispatches to the compressed copy. -/
-theorem C04_witness_stale_compressed :
-    ¬ (∀ (chain : List Sect) (n : Nat), (merge chain).lookup n = newest chain n) := by
+/-- **Regression (the merge before the repair).**  With both maps merged independently the
+    statement is false: base stores object 5 in object stream 7, an appended revision redefines 5
+    as a plain object — the old reader still dispatched to the compressed copy. -/
+theorem C04_witness_stale_compressed_old :
+    ¬ (∀ (chain : List Sect) (n : Nat), (∀ s ∈ chain, ListedOnce s n) →
+        (mergeOld chain).lookup n = newest chain n) := by
   intro h
-  have := h [[(5, .inuse 9 0)], [(5, .comp 7 0), (7, .inuse 1 0)]] 5
+  have := h [[(5, .inuse 9 0)], [(5, .comp 7 0), (7, .inuse 1 0)]] 5 (by decide)
   revert this
   decide
 
-/-- … and an object freed by the appended revision still resolves to the compressed copy. -/
-theorem C04_witness_freed_still_resolves :
-    (merge [[(5, .free 0 1)], [(5, .comp 7 0), (7, .inuse 1 0)]]).lookup 5 = some (.comp 7 0) ∧
+/-- … and an object freed by the appended revision still resolved to the compressed copy;
+    the repaired merge gives the free entry. -/
+theorem C04_witness_freed_still_resolves_old :
+    (mergeOld [[(5, .free 0 1)], [(5, .comp 7 0), (7, .inuse 1 0)]]).lookup 5 = some (.comp 7 0) ∧
+    (merge [[(5, .free 0 1)], [(5, .comp 7 0), (7, .inuse 1 0)]]).lookup 5 = some (.free 0 1) ∧
     newest [[(5, .free 0 1)], [(5, .comp 7 0), (7, .inuse 1 0)]] 5 = some (.free 0 1) := by
+  decide
+
+/-- closed form of the OLD merge (what the regression looks like in general): a compressed entry
+    for `n` in ANY section won over everything -/
+theorem C04_lookup_exact_old (chain : List Sect) (n : Nat) :
+    (mergeOld chain).lookup n =
+      match firstComp chain n with
+      | some (a, b) => some (.comp a b)
+      | none => (newest chain n).map (fun e => match e with
+          | .comp _ _ => .inuse 0 0
+          | e => e) := by
+  unfold Table.lookup
+  rw [mergeOld_ext, mergeOld_entries]
+  cases hc : firstComp chain n with
+  | some c => rfl
+  | none =>
+    cases hn : newest chain n with
+    | none => rfl
+    | some e => cases e <;> simp [toBasic]
+
+/-- a section that lists a number twice is outside the property (and outside `C04_newest_wins`):
+    its own table already prefers the compressed entry to a later plain one -/
+theorem C04_witness_duplicate_in_section :
+    (merge [[(5, .comp 7 0), (5, .inuse 9 0)]]).lookup 5 = some (.comp 7 0) ∧
+    newest [[(5, .comp 7 0), (5, .inuse 9 0)]] 5 = some (.inuse 9 0) ∧
+    ¬ ListedOnce [(5, .comp 7 0), (5, .inuse 9 0)] 5 := by
   decide
 
 /-- **History form.**  Appending a revision `rev` to a history `h`: a number the revision
     mentions resolves to the revision's entry, every other number resolves as before. -/
-theorem C04_append_revision_partial (rev : Sect) (h : List Sect) (n : Nat)
-    (hk : NoKindFlip (rev :: h) n) :
+theorem C04_append_revision (rev : Sect) (h : List Sect) (n : Nat)
+    (hd : ∀ s ∈ rev :: h, ListedOnce s n) :
     (merge (rev :: h)).lookup n =
       match lastOf rev n with
       | some e => some e
       | none => (merge h).lookup n := by
-  rw [C04_newest_wins_partial _ _ hk]
+  rw [C04_newest_wins _ _ hd]
   simp only [newest]
   cases hl : lastOf rev n with
   | some e => rfl
   | none =>
     simp only
-    unfold NoKindFlip at hk
-    rw [hl] at hk
-    exact (C04_newest_wins_partial h n hk).symm
+    exact (C04_newest_wins h n (fun s hs => hd s (List.mem_cons_of_mem _ hs))).symm
 
-example : NoKindFlip ([(3, .free 0 1)] :: [[(3, .inuse 4 0), (2, .inuse 1 0)]]) 2 := by decide
+example : (merge ([(3, .free 0 1)] :: [[(3, .comp 4 0), (4, .inuse 1 0), (2, .inuse 1 0)]])).lookup 3
+    = some (.free 0 1) := by decide
 
-/-- Histories that never use object streams satisfy the hypothesis for every number:
-    for them the FULL statement holds. -/
-theorem C04_newest_wins_without_object_streams (chain : List Sect) (n : Nat)
-    (hc : ∀ s ∈ chain, ∀ p ∈ s, ∀ a b, p.2 ≠ Ent.comp a b) :
-    (merge chain).lookup n = newest chain n := by
-  rw [C04_lookup_exact]
-  have : firstComp chain n = none := by
-    induction chain with
-    | nil => rfl
-    | cons s r ih =>
-      have hs : lastComp s n = none := by
-        have hs' := hc s (List.mem_cons_self ..)
-        clear ih hc
-        induction s with
-        | nil => rfl
-        | cons p q ihq =>
-          obtain ⟨k, e⟩ := p
-          have hq := ihq (fun p hp => hs' p (List.mem_cons_of_mem _ hp))
-          have he := hs' (k, e) (List.mem_cons_self ..)
-          simp only [lastComp, hq]
-          cases e with
-          | comp a b => exact absurd rfl (he a b)
-          | free a b => simp
-          | inuse a b => simp
-      simp only [firstComp, hs]
-      exact ih (fun s hs => hc s (List.mem_cons_of_mem _ hs))
-  rw [this]
+/-- **K-step history.**  `revs` = the appended revisions, newest first.  After any number of
+    appended revisions, `n` resolves to the entry of the NEWEST revision that mentions it; if none
+    does, as in the base history. -/
+theorem C04_history (revs : List Sect) (base : List Sect) (n : Nat)
+    (hd : ∀ s ∈ revs ++ base, ListedOnce s n) :
+    (merge (revs ++ base)).lookup n =
+      match (revs.filterMap (fun r => lastOf r n)).head? with
+      | some e => some e
+      | none => (merge base).lookup n := by
+  rw [C04_newest_wins _ _ hd,
+    C04_newest_wins base n (fun s hs => hd s (List.mem_append_right _ hs))]
+  clear hd
+  induction revs with
+  | nil => simp
+  | cons r rs ih =>
+    simp only [List.cons_append, newest, List.filterMap_cons]
+    cases hl : lastOf r n with
+    | some e => simp
+    | none => simpa using ih
 
-example : ∀ s ∈ [[(3, Ent.free 0 1)], [(3, Ent.inuse 4 0)]], ∀ p ∈ s, ∀ a b, p.2 ≠ Ent.comp a b := by
-  intro s hs p hp a b
-  simp only [List.mem_cons, List.not_mem_nil, or_false] at hs
-  rcases hs with rfl | rfl <;> simp only [List.mem_cons, List.not_mem_nil, or_false] at hp <;>
-    subst hp <;> simp
+example : (merge ([[(6, .inuse 2 0)], [(5, .free 0 1)], [(5, .inuse 1 0)]] ++
+    [[(5, .comp 7 0), (7, .inuse 0 0)]])).lookup 5 = some (.free 0 1) := by decide
 
 /-! ### recovery scan: the latest header wins -/
 
@@ -205,17 +269,17 @@ def Agree : Res → SRes → Prop
   | _, .genMismatch => True
   | _, .illformed => True
 
-/-- **Resolution (partial).**  If no number has a kind flip, `load` on the merged table returns,
-    for every object and every nesting depth, the value the newest definition prescribes:
-    Null for a freed object, the plain object at the entry's offset, or the slot of the object
-    stream the newest compressed entry names. -/
-theorem C04_load_agrees_with_spec_partial (chain : List Sect) (ph : List Phys)
-    (hk : ∀ m, NoKindFlip chain m) (fuel n g : Nat) :
+/-- **Resolution.**  For every chain of valid sections, `load` on the merged table returns, for
+    every object and every nesting depth, the value the newest definition prescribes: Null for a
+    freed object, the plain object at the entry's offset, or the slot of the object stream the
+    newest compressed entry names. -/
+theorem C04_load_agrees_with_spec (chain : List Sect) (ph : List Phys)
+    (hk : SectionsValid chain) (fuel n g : Nat) :
     Agree (load (merge chain) ph fuel n g) (specResolve chain ph fuel n g) := by
   induction fuel generalizing n g with
   | zero => simp [specResolve, Agree]
   | succ f ih =>
-    have hl := C04_newest_wins_partial chain n (hk n)
+    have hl := C04_newest_wins chain n (fun s hs => hk s hs n)
     unfold Table.lookup at hl
     unfold load specResolve
     cases hn : newest chain n with
@@ -300,15 +364,17 @@ theorem C04_load_agrees_with_spec_partial (chain : List Sect) (ph : List Phys)
           | genMismatch => simp [Agree]
           | illformed => simp [Agree]
 
--- non-vacuity: a two-revision history with an object stream in the base, the appended revision
--- redefines the plain object 3 and adds 6; every number satisfies the hypothesis and the
--- theorem's conclusion is a real equation
+-- non-vacuity: a two-revision history with an object stream in the base; the appended revision
+-- redefines object 2 (stored in the object stream by the base) as a plain object and frees
+-- object 1 (also stored there): the theorem's conclusion is a real equation for both
 example :
-    let chain : List Sect := [[(3, .inuse 3 0), (6, .inuse 4 0)],
+    let chain : List Sect := [[(1, .free 0 1), (2, .inuse 3 0), (6, .inuse 4 0)],
                               [(1, .comp 5 0), (2, .comp 5 1), (3, .inuse 0 0), (5, .inuse 1 0)]]
-    (∀ m, m < 8 → NoKindFlip chain m) ∧
-    specResolve chain [⟨3, 0, .val 10⟩, ⟨5, 0, .objstm [(1, 11), (2, 12)]⟩, ⟨9, 0, .xrefstm⟩,
-      ⟨3, 0, .val 13⟩, ⟨6, 0, .val 14⟩] 4 2 0 = .val 12 := by
+    let ph : List Phys := [⟨3, 0, .val 10⟩, ⟨5, 0, .objstm [(1, 11), (2, 12)]⟩, ⟨9, 0, .xrefstm⟩,
+      ⟨2, 0, .val 13⟩, ⟨6, 0, .val 14⟩]
+    specResolve chain ph 4 2 0 = .val 13 ∧ load (merge chain) ph 4 2 0 = .val 13 ∧
+    specResolve chain ph 4 1 0 = .null ∧ load (merge chain) ph 4 1 0 = .null ∧
+    load (mergeOld chain) ph 4 2 0 = .val 12 := by
   decide
 
 end OxiVerif.C04
